@@ -885,7 +885,9 @@ pub fn run_world(spec: &WorldSpec, ch: &mut Ch, verbose: bool) -> WorldResult {
                 Step::NeedsApp(p) => {
                     if spec.slow_app_pm > 0 && key.is_some() && ch.chance(spec.slow_app_pm, 1000, "srv.slow-app") {
                         stats.hit("fault.slow-app-split");
-                        let d = (1 + ch.below(30, "srv.slow-app.ms")) * MS;
+                        // mostly a few milliseconds, now and then long enough
+                        // for dozens of other exchanges to pass
+                        let d = if ch.chance(1, 6, "srv.slow-app.long") { (50 + ch.below(350, "srv.slow-app.ms")) * MS } else { (1 + ch.below(30, "srv.slow-app.ms")) * MS };
                         let k = key.unwrap();
                         busy.insert(k.clone());
                         q.after(d, Ev::AppDone { from, pending: p, key: k });
